@@ -146,11 +146,19 @@ def main():
     fbad = []
     for k, o in enumerate(coq_eval("c14fil", HDR, ["Definition cases := %s.\nEval vm_compute in bad_idx filter_ok cases.\n" % cl(ch) for ch in chunked(frows, 100)])):
         fbad += [k * 100 + x for x in parse_nlist(parse_evals(o)[0])]
+    # the same filtered runs in processes with other local time zones (TZ): the delivered updates do not depend on the process environment
+    tzbad = []
+    for tzname in ("EST5", "CET-1"):
+        tz_out = []
+        for ch in chunked(fsc, 30):
+            tz_out += run_impl("simlib", {"scenarios": [simgen.to_impl(s[0]) for s in ch], "observe": "calls"}, extra_env={"TZ": tzname})["out"]
+        tzbad += [i for i, (a, b_) in enumerate(zip(fimpl, tz_out)) if delivered_impl(a) != delivered_impl(b_)]
+    fbad = sorted(set(fbad) | set(tzbad))
     ck.family("listener_filters", len(frows), len(set(frows)), fbad, fbad,
               dist={"with_inplay": sum(1 for s in fsc if "inplay" in s[1]), "with_seconds_to_start": sum(1 for s in fsc if "seconds_to_start" in s[1]), "with_max_inplay": sum(1 for s in fsc if "max_inplay_seconds" in s[1])},
               samples=[{"family": "filter", "listener_kwargs": fsc[0][1], "delivered": delivered_impl(fimpl[0])}])
     for i in fbad[:3]:
-        ck.fail("C14-filter", "the updates delivered under listener filters %s are not exactly those that pass the filters, once each" % fsc[i][1], {"scenario": fsc[i][0], "delivered": delivered_impl(fimpl[i])})
+        ck.fail("C14-filter", "the updates delivered under listener filters %s are not exactly those that pass the filters, once each%s" % (fsc[i][1], " (they differ between processes with TZ unset, EST5 and CET-1)" if i in tzbad else ""), {"scenario": fsc[i][0], "delivered": delivered_impl(fimpl[i])})
 
     # ---- family 3: determinism across fresh processes with different PYTHONHASHSEED (several event groups, orders, carried state)
     dsc = []
@@ -188,7 +196,15 @@ def main():
     for _ in range(18 if thorough else 6):
         s = simgen.gen_scenario(rng, {"nmarkets": [3, 4], "nstrats": [1], "kinds": ["L"], "p_place": 0.9, "p_manage": 0.1, "min_upd": 5, "max_upd": 8, "p_remove": 0.0, "no_remove": True})
         for c in s["clients"]:
-            c["limit"] = rng.choice([1, 2, 3])
+            c["limit"] = rng.choice([1, 2, 3, None])
+        # half of the runs use placement cool-downs (measured on the framework clock, i.e. market time)
+        if rng.random() < 0.5:
+            for sp in s["strategies"]:
+                sp.update({"max_live": 10 ** 6, "max_trade": 10 ** 6})
+            for e in s["script"]:
+                for a in e["acts"]:
+                    if a[0] == "place":
+                        a[5] = dict(a[5] or {}, place_reset=rng.choice([0.2, 1.0, 3.0]), reset=rng.choice([0.0, 1.0]))
         wsc.append(s)
     wpayload = {"scenarios": [simgen.to_impl(s) for s in wsc], "observe": "all"}
     wruns = [run_impl("simlib", wpayload, extra_env={"VERIF_WALL": w})["out"] for w in ("frozen", "fast")]
